@@ -10,6 +10,10 @@ namespace Mpir.AllocSafe5
 open Mpir Mpir.AllocSafe
 open Mpir.Mpz (sgn Norm)
 
+/-- a small heap for the examples: 0 = one limb allocated, value 0; 1 = B^2 - 1 (exact block); 2 = the value 6; 3 = scratch -/
+def ex6 : St := ⟨fun i => if i = 0 then ⟨0, 0, ⟨1, [junk]⟩⟩ else if i = 1 then ⟨2, 0, ⟨2, [B - 1, B - 1]⟩⟩
+                 else ⟨1, 0, ⟨1, [6]⟩⟩, true⟩
+
 /-! ## mpz_import (mpz/import.c) -/
 
 /-- The number of limbs mpz_import stores through `zp` is exactly the `zsize = ceil (count * (8*size - nail) / 64)` it requests from
@@ -101,5 +105,47 @@ example : let s := mpz_import ex 0 2 (-1) 8 0 0 0 ([1, 0, 0, 0, 0, 0, 0, 0, 2, 0
 example : view ((mpz_import ex 0 2 1 8 0 0 1 ([0, 0, 0, 0, 0, 0, 0, 0, 2, 0, 0, 0, 0, 0, 0, 0])).h 0) = ⟨2, 1, [2]⟩ := by decide
 -- negative: `MPZ_REALLOC (z, zsize - 1)` — the second limb leaves the block
 example : (import_ 1 ex 0 2 (-1) 8 0 0 0 ([1, 0, 0, 0, 0, 0, 0, 0, 2, 0, 0, 0, 0, 0, 0, 0])).ok = false := by decide
+
+/-! ## mpz_lcm (mpz/lcm.c) -/
+
+theorem toInt_natAbs (m : Mpz.Mpz) : (Mpz.toInt m).natAbs = val m.d := by
+  unfold Mpz.toInt; split <;> simp
+
+/-- mpz_lcm (mpz/lcm.c), the arm `vsize == 1` (label `one`, lcm.c:44-64), u ≠ 0, every allocation and every alias pattern
+    (r may be u and / or v): `MPZ_REALLOC (r, usize+1)` covers the `usize` limbs of mpn_mul_1 and the carry limb `rp[usize] = c`
+    that is stored unconditionally; `up` and `PTR(v)[0]` are fetched after the reallocation; the result is well formed, positive,
+    equal to lcm (|u|, |v|); nothing else is touched.
+    PARTIAL: the full statement is the same conclusion for every u, v (lcm 0 for a zero operand; the arm `usize == 1` is this one
+    with u, v exchanged; the general arm goes through mpz_gcd / mpz_divexact / mpz_mul on the temporary g and is run only). -/
+theorem mpz_lcm_one_alloc_safe_partial (s : St) (r u v gid : Nat) (hs : s.ok = true)
+    (hr : OWF (s.h r)) (hu : OWF (s.h u)) (hv : OWF (s.h v)) (hu0 : (s.h u).size ≠ 0) (hv1 : (s.h v).size.natAbs = 1) :
+    Safe s (mpz_lcm s r u v gid) r (Spec.lcmOne (view (s.h r)) (view (s.h u)) ((view (s.h v)).d.headD junk)) ∧
+    Mpz.toInt (view ((mpz_lcm s r u v gid).h r)) =
+      (Nat.lcm (Mpz.toInt (view (s.h u))).natAbs (Mpz.toInt (view (s.h v))).natAbs : Nat) := by
+  have hv0 : (s.h v).size ≠ 0 := by omega
+  have e : mpz_lcm s r u v gid = lcmOne 1 s r u v (s.h u).size.natAbs := by
+    unfold mpz_lcm lcm_
+    simp [St.SIZ, hu0, hv0, hv1]
+  rw [e]
+  have R := lcmOne_refines s r u v hs hr hu hv (by omega)
+  have hvl := view_d_length hv
+  obtain ⟨x, hd⟩ := List.length_eq_one_iff.mp (hvl.trans hv1)
+  have hx : x < B := view_limbs hv x (by rw [hd]; simp)
+  have hx0 : x ≠ 0 := by
+    have := hv.2.2.2.2.2
+    rw [hd] at this
+    intro h; subst h; simp at this
+  have E := Spec.lcmOne_spec (view (s.h r)) (view (s.h u)) x hr.2.1 hu.2 hu0 hx hx0
+  rw [hd] at R ⊢
+  simp only [List.headD_cons] at R ⊢
+  refine ⟨R.safe E.1, ?_⟩
+  rw [R.view, E.2, toInt_natAbs, toInt_natAbs, hd]
+  simp [val]
+
+-- lcm (B^2 - 1, 6) = 2 (B^2 - 1) into the one-limb variable 0 (grown to 3 limbs), and in place over u
+example : let s := mpz_lcm ex6 0 1 2 3; s.ok = true ∧ view (s.h 0) = ⟨3, 3, [B - 2, B - 1, 1]⟩ := by decide
+example : let s := mpz_lcm ex6 1 1 2 3; s.ok = true ∧ view (s.h 1) = ⟨3, 3, [B - 2, B - 1, 1]⟩ := by decide
+-- negative: `MPZ_REALLOC (r, usize)` — the carry limb `rp[usize] = c` leaves the block
+example : (lcm_ 0 ex6 0 1 2 3).ok = false := by decide
 
 end Mpir.AllocSafe5
